@@ -82,15 +82,39 @@ Print Assumptions text_print_norm.
    meeting [wf_text] (TextFixpoint.v): identifiers as names, byte strings, immediates in range, the libc
    law on each float immediate present (pF/pD/pLD = strtof/strtod/strtold, fF/fD/fLD = printf with
    FLT/DBL/LDBL_MANT_DIG digits: lexeme of the printf shape and strtoX (printf x) = x), names resolving
-   as meant, labels numbered in order of first occurrence (what MIR_scan_string itself produces), UINT
+   as meant, labels numbered in order of first occurrence ([canon_labels]: what MIR_scan_string itself produces; for
+   any other numbering see text_module_scan_relabel below), UINT
    immediates < 2^63 and STR operands NUL-terminated (the complement of the recorded known findings).
-   p-typed data (0x literals, HexProofs.v) is covered.  Not covered by this theorem (correspondence
-   only): modules whose labels are numbered otherwise (the model predicts the renumbered text). *)
+   p-typed data (0x literals, HexProofs.v) is covered. *)
 Theorem text_module_fixpoint : forall pF pD pLD fF fD fLD ms, wf_text pF pD pLD fF fD fLD ms ->
   scan_ctx pF pD pLD (p_ctx fF fD fLD ms) = Ok (map tnorm_module ms)
   /\ p_ctx fF fD fLD (map tnorm_module ms) = p_ctx fF fD fLD ms.
 Proof. exact text_module_fixpoint_lemma. Qed.
 Print Assumptions text_module_fixpoint.
+
+(* THE PROPERTY for modules whose labels are numbered ARBITRARILY (built through the API in any order, read
+   from binary files produced separately so that label numbers of different modules overlap, ...): a
+   label in text is a name L<n>, and MIR_scan_string gives every name of a module the next number of
+   the context's label counter at its first occurrence.  [relabel_ctx] (ParseProofs.v) is that renaming
+   on the AST; it is defined exactly when every label number prints as an L<n> name and no label is
+   defined twice in a module.  Scanning the writer's text yields the renamed modules up to tnorm - no
+   assumption on the numbering.  With [canon_labels ms] (= relabel_ctx ms = Some ms) this is
+   text_module_fixpoint; the renamed context is again subject to text_module_fixpoint whenever it meets
+   wf_text (decided by wf_text_b, evaluated by the driver on the renamed context of every generated case). *)
+Theorem text_module_scan_relabel : forall pF pD pLD fF fD fLD ms ms',
+  cctx_ok pF pD pLD fF fD fLD ms -> Forall tmodule_ok ms -> relabel_ctx ms = Some ms' ->
+  scan_ctx pF pD pLD (p_ctx fF fD fLD ms) = Ok (map tnorm_module ms').
+Proof. exact text_module_scan_relabel_lemma. Qed.
+Print Assumptions text_module_scan_relabel.
+
+(* non-vacuity: two modules with labels 7 and 3 used before their definition, the same numbers in both
+   modules, an lref in front of its function: hypotheses hold, the renaming is not the identity, and
+   the renamed context is canonical (a second scan is a strict fixpoint) *)
+Theorem text_relabel_nonvacuous :
+  cctx_ok parseF parseD parseLD fmtF fmtD fmtLD tex_ctx2 /\ Forall tmodule_ok tex_ctx2
+  /\ relabel_ctx tex_ctx2 = Some tex_ctx2r /\ tex_ctx2r <> tex_ctx2 /\ relabel_ctx tex_ctx2r = Some tex_ctx2r.
+Proof. exact (conj tex2_chars_ok (conj tex2_tokens_ok tex2_relabel)). Qed.
+Print Assumptions text_relabel_nonvacuous.
 
 (* the writer model terminates with an output on every context (it is a structurally recursive
    function over items, insns and operands: no fuel, no partiality) *)
